@@ -48,6 +48,25 @@ type vectorSelector struct {
 
 	shard     int
 	numShards int
+
+	// selectTimestamps makes the selector emit the timestamp of the selected
+	// sample, in seconds, instead of its value.
+	selectTimestamps bool
+}
+
+// NewTimestampSelector creates an operator which selects, for every series and
+// step, the timestamp of the sample a vector selector would select. It is the
+// operand timestamp() needs when it is applied to a selector directly.
+func NewTimestampSelector(
+	pool *model.VectorPool,
+	selector engstore.SeriesSelector,
+	queryOpts *query.Options,
+	offset time.Duration,
+	shard, numShards int,
+) model.VectorOperator {
+	o := NewVectorSelector(pool, selector, queryOpts, offset, shard, numShards).(*vectorSelector)
+	o.selectTimestamps = true
+	return o
 }
 
 // NewVectorSelector creates operator which selects vector of series.
@@ -117,9 +136,12 @@ func (o *vectorSelector) Next(ctx context.Context) ([]model.StepVector, error) {
 			if len(vectors) <= currStep {
 				vectors = append(vectors, o.vectorPool.GetStepVector(seriesTs))
 			}
-			_, v, ok, err := selectPoint(series.samples, seriesTs, o.lookbackDelta, o.offset)
+			t, v, ok, err := selectPoint(series.samples, seriesTs, o.lookbackDelta, o.offset)
 			if err != nil {
 				return nil, err
+			}
+			if o.selectTimestamps {
+				v = float64(t) / 1000
 			}
 			if ok {
 				vectors[currStep].SampleIDs = append(vectors[currStep].SampleIDs, series.signature)
